@@ -226,6 +226,44 @@ class _SetRewriter(ast.NodeTransformer):
         )
 
 
+class SetOpRewriter(ast.NodeTransformer):
+    """`a & b`, `a | b`, `a ^ b`, `a - b` -> __sx_setop__(op, a, b): when the result is a builtin
+    set/frozenset (dict views, C-level set algebra) it becomes an order-aware SxSet, so its iteration
+    order is explorer-chosen like that of every other set (C16).  Used via load(extra_ast=...)."""
+
+    OPS = {ast.BitAnd: "&", ast.BitOr: "|", ast.BitXor: "^", ast.Sub: "-"}
+
+    def __init__(self):
+        self.count = 0
+
+    def visit_BinOp(self, node):
+        self.generic_visit(node)
+        sym = self.OPS.get(type(node.op))
+        if sym is None:
+            return node
+        self.count += 1
+        return ast.copy_location(
+            ast.Call(func=ast.Name(id="__sx_setop__", ctx=ast.Load()), args=[ast.Constant(value=sym), node.left, node.right], keywords=[]),
+            node,
+        )
+
+
+def _sx_setop(sym, a, b):
+    if sym == "-":
+        r = a - b
+    elif sym == "&":
+        r = a & b
+    elif sym == "|":
+        r = a | b
+    else:
+        r = a ^ b
+    if type(r) is set:
+        return SxSet(sorted(r, key=repr))
+    if type(r) is frozenset:
+        return SxFrozenSet(sorted(r, key=repr))
+    return r
+
+
 class _SnapCut(ast.NodeTransformer):
     """Locates `next_pos != subpath_start and next_pos.almost_equals(subpath_start)`
     (svg_types._rewrite_path) by AST pattern and routes it through __sx_snap__,
@@ -408,6 +446,7 @@ def load(*, fake_skia=True, lex_placeholders=True, modules=MODULE_ORDER, extra_a
             "set": SxSet,
             "frozenset": SxFrozenSet,
             "__sx_set__": _sx_set,
+            "__sx_setop__": _sx_setop,
             "__sx_snap__": _sx_snap,
             "__sx_ite__": _sx_ite,
             "__import__": sx_import,
@@ -643,3 +682,52 @@ class FunctionTracer:
 
     def __exit__(self, *a):
         sys.setprofile(self._old)
+
+
+# ---------------------------------------------------------------- module-level state
+def snapshot_state(mods, names=None):
+    """Remember the contents of every module-level mutable container (dict / list / set /
+    defaultdict) of the loaded modules, so that reset_state() can put a module instance back
+    into its freshly-imported state in place (cheap alternative to re-loading per path for
+    harnesses that study call histories: memo tables, registries, lru_caches)."""
+    import copy
+
+    snap = {}
+    for mname, m in mods._mods.items():
+        if mname == "__pkg__" or (names and mname not in names):
+            continue
+        for k, v in list(vars(m).items()):
+            if k.startswith("__"):
+                continue
+            if isinstance(v, (dict, list, set)) and type(v).__module__ in ("builtins", "collections"):
+                try:
+                    snap[(mname, k)] = (v, copy.copy(v))
+                except Exception:
+                    pass
+    mods._state_snapshot = snap
+    return snap
+
+
+def reset_state(mods):
+    snap = getattr(mods, "_state_snapshot", None)
+    if snap is None:
+        return
+    for (mname, k), (obj, saved) in snap.items():
+        if isinstance(obj, dict):
+            obj.clear()
+            obj.update(saved)
+        elif isinstance(obj, list):
+            obj[:] = saved
+        elif isinstance(obj, set):
+            obj.clear()
+            obj.update(saved)
+    # containers created after the snapshot by a changed source are found by name again
+    for mname, m in mods._mods.items():
+        if mname == "__pkg__":
+            continue
+        for k, v in list(vars(m).items()):
+            if hasattr(v, "cache_clear"):
+                try:
+                    v.cache_clear()
+                except Exception:
+                    pass
